@@ -29,6 +29,10 @@ func gen(r0 *vh.Rand, tier string, n int, emit func(vh.Case)) {
 			emit(faultCase(r, c))
 			continue
 		}
+		if r.Chance(1, 10) {
+			emit(dynFaultCase(r, c))
+			continue
+		}
 		table := r.Chance(3, 10)
 		gthr := vh.Pick(r, []int{0, 120, 200, 300, 450, 700, 1500, 262144})
 		gmode := r.Intn(3)
@@ -186,6 +190,63 @@ func faultCase(r *vh.Rand, c vh.Case) vh.Case {
 		}
 	}
 	c.Ops = append(c.Ops, "list", "async", "dump", "node")
+	return c
+}
+
+// dynFaultCase: an auto-switching directory sharded by its link limit (size estimation disabled or a
+// size mode), reloaded (sub-shards not in memory) with its settings re-applied and its entry count
+// known; then a sub-shard block becomes unavailable and entries are removed / replaced: with exactly
+// MaxLinks+1 entries a removal decides the HAMT->basic conversion, which must fail WITHOUT having
+// changed anything.  The block is restored and every API, and a retry of the same removal, is compared
+// with the map.
+func dynFaultCase(r *vh.Rand, c vh.Case) vh.Case {
+	table := r.Chance(1, 3)
+	hm := "murmur"
+	if table {
+		hm = "table"
+	}
+	w := vh.Pick(r, []int{8, 8, 16})
+	ml := r.Range(5, 12)
+	mode := vh.Pick(r, []int{2, 2, 2, 0, 1})
+	thr := 262144
+	c.Ops = append(c.Ops, fmt.Sprintf("cfg %d %d 256 %s", thr, mode, hm))
+	c.Ops = append(c.Ops, fmt.Sprintf("new dyn %d %d - 0 0 0 0 %s", ml, w, vh.Pick(r, []string{"-", "v1"})))
+	n := ml + 1 + vh.Pick(r, []int{0, 0, 0, 1, 2})
+	var names []dirx.NameH
+	if table {
+		names = dirx.TablePool(r, n+3, false)
+	} else {
+		names = dirx.MurmurPool(r, lg2(w), n+3)
+	}
+	for j := 0; j < n; j++ {
+		c.Ops = append(c.Ops, dirx.AddTok(names[j], &dirx.Pool[r.Intn(16)]))
+	}
+	c.Ops = append(c.Ops, "reload", fmt.Sprintf("setmaxlinks %d", ml), fmt.Sprintf("setfanout %d", w))
+	// one operation that makes the entry count known without loading anything else
+	c.Ops = append(c.Ops, "rm "+names[n+1].Tok(), "dump")
+	c.Ops = append(c.Ops, fmt.Sprintf("fault %d", r.Intn(50)))
+	var tried []dirx.NameH
+	for j, m := 0, r.Range(2, 6); j < m; j++ {
+		nm := names[r.Intn(n)]
+		switch r.Intn(6) {
+		case 0:
+			c.Ops = append(c.Ops, dirx.AddTok(nm, &dirx.Pool[r.Intn(16)]))
+		case 1:
+			c.Ops = append(c.Ops, "find "+nm.Tok())
+		default:
+			c.Ops = append(c.Ops, "rm "+nm.Tok())
+			tried = append(tried, nm)
+		}
+	}
+	c.Ops = append(c.Ops, "dump", "unfault")
+	for _, nm := range tried {
+		c.Ops = append(c.Ops, "find "+nm.Tok())
+	}
+	c.Ops = append(c.Ops, "list", "each", "async")
+	for _, nm := range tried {
+		c.Ops = append(c.Ops, "rm "+nm.Tok())
+	}
+	c.Ops = append(c.Ops, "list", "node", "dump")
 	return c
 }
 
